@@ -665,7 +665,9 @@ func (s *UDPSession) SetRateLimit(bytesPerSecond uint32) {
 
 // SetLogger configures the kcp trace logger
 func (s *UDPSession) SetLogger(mask KCPLogType, logger logoutput_callback) {
+	s.mu.Lock()
 	s.kcp.SetLogger(mask, logger)
+	s.mu.Unlock()
 }
 
 // Control applys a procedure to the underly socket fd.
